@@ -8,6 +8,15 @@ Streams (all from run.seed):
   twins             the same tensor multiplied by 2^k: output and scale must scale by 2^k (away from eps);
   absorb            exponent bounds / frozen scales far below the data: the straight-through sum
                     x + (-x + xq) loses xq (finding);
+  history           ONE quantizer object used several times (tensors of other rank / other shape / same shape
+                    times 2^k / the identical tensor again / all-zero then data; the data format switched and
+                    public attributes re-assigned between calls; a frozen post-training scale; an object used
+                    stand-alone with alpha=None and then made trainable): after EVERY call the output, the
+                    exposed scale (values AND shape) and the attributes are judged by the same clause oracle,
+                    compared with the Lean object model (`qbRun` / `qlRun`) and with a FRESH twin quantizer
+                    called on that tensor alone; 2^k twins inside one history are checked on the SAME object;
+  argforms          the numeric options as numpy / float / 0-d array / tf.constant and the input as
+                    numpy / float64 / tf.Variable / nested list: same value => same output and scale;
 Clause oracle on the REAL outputs (Python Fractions): y = rnd32(S * k * step) with integer |k| <= 2^(bits-1)-1,
 S constant on the SPEC groups and positive, 'auto' maps the group maximum to the top code and clips nothing,
 'auto_po2' scales are powers of two within the bounds, everything finite."""
@@ -131,11 +140,14 @@ def impl_call(Q, K, tf, c):
                            elements_per_scale=c["eps"], min_po2_exponent=c["mn"], max_po2_exponent=c["mx"],
                            post_training_scale=c["pts"])
       y = np.asarray(q(xt), dtype=np.float32)
-      sc = A.broadcast_scale(q.scale if not hasattr(q.scale, "numpy") else q.scale.numpy(), c["x"].shape)
+      raw = np.asarray(q.scale if not hasattr(q.scale, "numpy") else q.scale.numpy())
+      c["scale_shapes"] = [list(raw.shape)]
+      sc = A.broadcast_scale(raw, c["x"].shape)
       return y, sc, None
     q = Q.quantized_linear(c["bits"], c["integer"], int(c["sym"]), keep_negative=c["kn"], alpha=alpha,
                            scale_axis=c["sa"])
     y = np.asarray(q(xt), dtype=np.float32)
+    c["scale_shapes"] = [list(np.asarray(q.scale).shape), list(np.asarray(q.quantization_scale).shape)]
     sc = A.broadcast_scale(np.asarray(q.scale), c["x"].shape)
     qs = A.broadcast_scale(np.asarray(q.quantization_scale), c["x"].shape)
     return y, sc, qs
@@ -321,6 +333,517 @@ def judge_qlinear(run, c, x, y, sc, qs, mirrored):
                     mirrored=mirrored)
 
 
+# ------------------------------------------------------------------ histories on ONE object
+
+# "well above the library's epsilon floor" for the 2^k twins: the internal scale s (w.r.t. x / 2^integer; the
+# quantization_scale for quantized_linear) must satisfy eps / s < 2^-18, i.e. the epsilon inside log(s + eps) and
+# qq + eps moves a logarithm by less than the band of the logarithm oracle (2^-17) -> s >= 2^-5
+TWIN_FLOOR = F(1, 2 ** 5)
+
+QB_ATTR = dict(bits="bits", integer="integer", kn="keep_negative", sa="scale_axis", eps="elements_per_scale",
+               mn="min_po2_exponent", mx="max_po2_exponent")
+PATTERNS = ("rank-up", "rank-down", "same-shape", "format-switch", "reconfigure", "zero-then-data", "frozen",
+            "standalone-then-trainable")
+
+
+def varied_tensor(rng, shape, g=None, zero=None):
+  """short dyadics (|ints| <= 40) times one power of two, times a DIFFERENT power of two per index along every
+  axis: groups along any axis have different maxima, so a scale taken over the wrong axis shows"""
+  n = int(np.prod(shape))
+  g = int(rng.integers(0, 5)) if g is None else g
+  x = rng.integers(-40, 41, size=shape).astype(np.float64)
+  x[x == 0] = 3
+  for a, d in enumerate(shape):
+    sh = [1] * len(shape)
+    sh[a] = d
+    x = x * np.exp2(rng.permutation(np.arange(d) % 4).reshape(sh) - 1.0)
+  x = x * 2.0 ** g
+  if zero == "all":
+    x = x * 0.0
+  elif zero == "channel" and n > 1:
+    for ax in (-1, 0):
+      idx = [slice(None)] * len(shape)
+      idx[ax] = int(rng.integers(0, shape[ax]))
+      x[tuple(idx)] = 0
+  return x.astype(np.float32)
+
+
+def hist_shape(rng, rank, fixed):
+  """a shape of the given rank; `fixed` = {axis: allowed dims} (for elements_per_scale / frozen scales)"""
+  while True:
+    sh = [int(rng.choice(fixed.get(a, (2, 4, 8) if rank > 1 else (2, 4, 8)))) for a in range(rank)]
+    if int(np.prod(sh)) <= 192:
+      return sh
+
+
+def gen_histories(rng, tier):
+  reps = 2 if tier == "quick" else 10
+  hs = []
+  for rep in range(reps):
+    for pat in PATTERNS:
+      for qk in ("qbits", "qlinear"):
+        for po2 in (False, True):
+          if pat == "frozen" and qk == "qlinear":
+            continue
+          hs.append(gen_history(rng, pat, qk, po2, rep))
+  return hs
+
+
+def gen_history(rng, pat, qk, po2, rep):
+  bits = int(rng.integers(2, 9))
+  cfg = dict(bits=bits, integer=int(rng.integers(0, 3)), kn=True if rng.random() < 0.8 else False, po2=po2,
+             sa=None, eps=None, mn=None, mx=None)
+  if qk == "qlinear":
+    cfg["sym"] = bool(rng.random() < 0.7)
+    cfg["kn"] = True if rng.random() < 0.9 else False
+  fixed = {}
+  min_rank = 1
+  # explicit scale_axis / elements_per_scale in a third of the histories (never where the default axis is the point)
+  if pat in ("same-shape", "zero-then-data", "reconfigure") and rng.random() < 0.5:
+    t = rng.random()
+    if t < 0.5:
+      cfg["sa"] = int(rng.integers(0, 2))
+      min_rank = 2
+    else:
+      cfg["sa"] = [0, 1] if rng.random() < 0.5 else [1]
+      min_rank = 2
+    if qk == "qbits" and po2 and pat != "reconfigure" and rng.random() < 0.6:
+      axes = cfg["sa"] if isinstance(cfg["sa"], list) else [cfg["sa"]]
+      e = int(rng.choice([1, 2, 4]))
+      cfg["eps"] = ([e] * len(axes) if rng.random() < 0.5 else e) if isinstance(cfg["sa"], list) else e
+      for a in axes:
+        fixed[a] = tuple(d for d in (2, 4, 8) if d % e == 0)
+  if qk == "qbits" and po2 and pat not in ("reconfigure", "standalone-then-trainable") and rng.random() < 0.25:
+    cfg["mn"] = int(rng.integers(-6, -1))
+    cfg["mx"] = int(rng.integers(1, 5))
+  h = dict(q=qk, pattern=pat, cfg0=dict(cfg), pts=None, pre=None, steps=[],
+           build_ch_last=bool(rng.random() < 0.5))
+  fmt = bool(rng.random() < 0.75)          # channels_last
+
+  def step(shape, x=None, set_=None, ch_last=None, twin_of=None, twin_k=None, zero=None, g=None, same_as=None):
+    nonlocal cfg
+    if set_:
+      cfg = dict(cfg, **set_)
+    h["steps"].append(dict(cfg=dict(cfg), set=dict(set_) if set_ else None,
+                           ch_last=fmt if ch_last is None else ch_last, shape=list(shape),
+                           x=varied_tensor(rng, shape, g=g, zero=zero) if x is None else x,
+                           twin_of=twin_of, twin_k=twin_k, same_as=same_as,
+                           as_numpy=bool(rng.random() < 0.4)))
+
+  def sh(rank):
+    return hist_shape(rng, max(rank, min_rank), fixed)
+
+  if pat == "rank-up":
+    r = [(1, 3), (2, 4), (2, 3), (3, 4), (1, 2)][int(rng.integers(0, 5))] if rep else (2, 4)
+    s0 = sh(r[0]); step(s0); step(sh(r[1])); step(sh(min(r[1] + 1, 4)) if rng.random() < 0.5 else s0)
+  elif pat == "rank-down":
+    r = [(4, 2), (3, 2), (4, 3), (4, 1), (2, 1)][int(rng.integers(0, 5))] if rep else (4, 2)
+    step(sh(r[0])); step(sh(r[1])); step(sh(r[0]))
+  elif pat == "same-shape":
+    s0 = sh(int(rng.integers(2, 5)))
+    x0 = varied_tensor(rng, s0)
+    ks = [int(k) for k in rng.permutation([-3, -1, 2, 5])[:2]]
+    step(s0, x=x0)
+    step(s0, x=(x0.astype(np.float64) * 2.0 ** ks[0]).astype(np.float32), twin_of=0, twin_k=ks[0])
+    step(s0, g=int(rng.integers(5, 9)))                        # same shape, other data of much larger magnitude
+    step(s0, x=x0.copy(), same_as=0)                           # the identical tensor again
+    step(s0, x=(x0.astype(np.float64) * 2.0 ** ks[1]).astype(np.float32), twin_of=0, twin_k=ks[1])
+  elif pat == "format-switch":
+    s0 = sh(int(rng.integers(2, 5)))
+    x0 = varied_tensor(rng, s0)
+    step(s0, x=x0, ch_last=fmt); step(s0, x=x0.copy(), ch_last=not fmt); step(sh(int(rng.integers(2, 5))), ch_last=not fmt)
+    step(s0, x=x0.copy(), ch_last=fmt, same_as=0)
+  elif pat == "reconfigure":
+    s0 = sh(int(rng.integers(2, 5)))
+    x0 = varied_tensor(rng, s0)
+    step(s0, x=x0)
+    if qk == "qbits":
+      choices = [dict(bits=int(rng.integers(2, 9))), dict(integer=int(rng.integers(0, 3))), dict(po2=not po2),
+                 dict(kn=not cfg["kn"]), dict(sa=int(rng.integers(0, len(s0)))), dict(sa=None)]
+    else:
+      choices = [dict(po2=not po2), dict(sym=not cfg["sym"])]
+    order = rng.permutation(len(choices))
+    step(s0, x=x0.copy(), set_=choices[int(order[0])])
+    step(s0, set_=choices[int(order[1])])
+    step(s0, x=x0.copy(), set_={k: h["cfg0"][k] for k in set(choices[int(order[0])]) | set(choices[int(order[1])])},
+         same_as=0)                                            # everything re-assigned to the first configuration
+  elif pat == "zero-then-data":
+    s0 = sh(int(rng.integers(2, 4)))
+    step(s0, zero="all"); step(s0); step(s0, zero="channel"); step(s0, zero="all")
+  elif pat == "frozen":
+    c = int(rng.choice([2, 4, 8]))
+    rk = int(rng.integers(1, 3))
+    pshape = [1] * (rk - 1) + [c]
+    h["pts"] = (rng.integers(1, 8, size=pshape) * np.exp2(rng.integers(-3, 3, size=pshape))).astype(np.float32)
+    fixed_last = lambda r: hist_shape(rng, r, {r - 1: (c,)})
+    step(fixed_last(max(rk, 2))); step(fixed_last(4)); step(fixed_last(max(rk, 1))); step(fixed_last(3))
+  elif pat == "standalone-then-trainable":
+    # alpha=None object used stand-alone (fixed scale), then handed to a layer: _set_trainable_parameter()
+    h["pre"] = dict(shape=sh(2))
+    h["pre"]["x"] = varied_tensor(rng, h["pre"]["shape"])
+    cfg["po2"] = True
+    if qk == "qlinear":
+      cfg["sym"] = True
+    h["cfg0"] = dict(cfg)
+    s0 = sh(int(rng.integers(2, 5)))
+    x0 = varied_tensor(rng, s0)
+    k = int(rng.choice([-3, 2]))
+    step(s0, x=x0); step(sh(int(rng.integers(1, 5))))
+    step(s0, x=(x0.astype(np.float64) * 2.0 ** k).astype(np.float32), twin_of=0, twin_k=k)
+  return h
+
+
+def build_q(Q, qk, cfg, pts, alpha_none=False):
+  alpha = None if alpha_none else ("auto_po2" if cfg["po2"] else "auto")
+  sa = list(cfg["sa"]) if isinstance(cfg["sa"], list) else cfg["sa"]
+  if qk == "qbits":
+    eps = list(cfg["eps"]) if isinstance(cfg["eps"], list) else cfg["eps"]
+    return Q.quantized_bits(cfg["bits"], cfg["integer"], 0, keep_negative=cfg["kn"], alpha=alpha, scale_axis=sa,
+                            elements_per_scale=eps, min_po2_exponent=cfg["mn"], max_po2_exponent=cfg["mx"],
+                            post_training_scale=None if pts is None else pts.copy())
+  return Q.quantized_linear(cfg["bits"], cfg["integer"], int(cfg["sym"]) if not alpha_none else 1,
+                            keep_negative=cfg["kn"], alpha=alpha, scale_axis=sa)
+
+
+def norm_val(v):
+  if v is None or isinstance(v, (bool, str)):
+    return v
+  if isinstance(v, (list, tuple)):
+    return [norm_val(t) for t in v]
+  if hasattr(v, "numpy"):
+    v = v.numpy()
+  a = np.asarray(v)
+  if a.ndim == 0:
+    f = float(a)
+    return int(f) if f == int(f) else f
+  return {"shape": list(a.shape), "vals": [float(t) for t in a.ravel()]}
+
+
+def snapshot(q):
+  """every instance attribute of the quantizer object except tf.Module bookkeeping, normalised"""
+  d = {}
+  for k, v in vars(q).items():
+    if k.startswith("_tf") or k.startswith("_self_") or k in ("_name", "_scope_name", "_name_scope"):
+      continue
+    d[k] = norm_val(v)
+  return d
+
+
+def model_attrs(qk, q):
+  """the public attributes in the vocabulary of the Lean object model (None if they left that vocabulary)"""
+  try:
+    alpha = q.alpha
+    if alpha not in ("auto", "auto_po2"):
+      return {"alpha": str(alpha)}
+    d = dict(bits=norm_val(q.bits), integer=norm_val(q.integer), keep_negative=bool(q.keep_negative),
+             po2=alpha == "auto_po2", sa=norm_val(q.scale_axis))
+    if qk == "qbits":
+      d.update(eps=norm_val(q.elements_per_scale), min_e=norm_val(q.min_po2_exponent), max_e=norm_val(q.max_po2_exponent))
+    else:
+      d.update(symmetric=bool(q.symmetric))
+    return d
+  except Exception as e:  # pylint: disable=broad-except
+    return {"error": type(e).__name__}
+
+
+def cfg_attrs(qk, cfg):
+  d = dict(bits=cfg["bits"], integer=cfg["integer"], keep_negative=cfg["kn"], po2=cfg["po2"], sa=cfg["sa"])
+  if qk == "qbits":
+    d.update(eps=cfg["eps"], min_e=cfg["mn"], max_e=cfg["mx"])
+  else:
+    d.update(symmetric=cfg["sym"])
+  return d
+
+
+def call_q(qk, q, xin, shape):
+  """(y, raw scale array, raw quantization_scale array or None)"""
+  y = np.asarray(q(xin), dtype=np.float32)
+  sc = q.scale
+  sc = np.asarray(sc.numpy() if hasattr(sc, "numpy") else sc, dtype=np.float64)
+  qs = None
+  if qk == "qlinear":
+    qs = np.asarray(q.quantization_scale, dtype=np.float64)
+  return y, sc, qs
+
+
+def spec_scale_shape(qk, cfg, shape, ch_last, pts):
+  """shape of the exposed scale from the documented meaning: keepdims over everything but the scale axes"""
+  rank = len(shape)
+  if pts is not None:
+    return list(np.asarray(pts).shape)
+  if rank <= 1:
+    if qk == "qbits" and not cfg["po2"]:
+      return [1]                 # 'auto' of a vector: one scale (axis = [0])
+    return list(shape)           # per element (no reduction along the channel axis)
+  axes = A.spec_scale_axes(rank, cfg["sa"], ch_last)
+  return [shape[a] if a in axes else 1 for a in range(rank)]
+
+
+def run_history(run, Q, K, tf, h):
+  """the REAL code: one object through all steps, and per step a fresh twin on that tensor alone"""
+  qk = h["q"]
+  recs = []
+  try:
+    K.set_image_data_format("channels_last" if h["build_ch_last"] else "channels_first")
+    if h["pre"] is not None:
+      q = build_q(Q, qk, h["cfg0"], None, alpha_none=True)
+      q(tf.constant(h["pre"]["x"]))
+      q._set_trainable_parameter()  # pylint: disable=protected-access
+    else:
+      q = build_q(Q, qk, h["cfg0"], h["pts"])
+    for st in h["steps"]:
+      rec = dict(obj=None, twin=None, err=None, twin_err=None)
+      if st["set"]:
+        for k, v in st["set"].items():
+          if k == "po2":
+            q.alpha = "auto_po2" if v else "auto"
+          elif k == "sym":
+            q.symmetric = int(v)
+          else:
+            setattr(q, QB_ATTR[k], list(v) if isinstance(v, list) else v)
+      K.set_image_data_format("channels_last" if st["ch_last"] else "channels_first")
+      xin = st["x"].copy() if st["as_numpy"] else tf.constant(st["x"])
+      try:
+        rec["obj"] = call_q(qk, q, xin, st["shape"])
+      except Exception as e:  # pylint: disable=broad-except
+        rec["err"] = "%s: %s" % (type(e).__name__, str(e)[:200])
+      rec["attrs"] = model_attrs(qk, q)
+      rec["snap"] = snapshot(q)
+      # the fresh twin: built from the harness's own record of the configuration, under the format of the moment
+      try:
+        tw = build_q(Q, qk, st["cfg"], h["pts"])
+        rec["twin"] = call_q(qk, tw, tf.constant(st["x"]), st["shape"])
+        rec["twin_snap"] = snapshot(tw)
+      except Exception as e:  # pylint: disable=broad-except
+        rec["twin_err"] = "%s: %s" % (type(e).__name__, str(e)[:200])
+      recs.append(rec)
+  finally:
+    K.set_image_data_format("channels_last")
+  return recs
+
+
+def hist_line(h, eps32):
+  def cj(qk, c):
+    d = cfg_attrs(qk, c)
+    return d
+  steps = [dict(set=cj(h["q"], st["cfg"]) if st["set"] else None, ch_last=st["ch_last"], shape=st["shape"],
+                x=A.enc(A.fr(st["x"]))) for st in h["steps"]]
+  l = dict(op="qbits_hist" if h["q"] == "qbits" else "qlinear_hist", cfg=cj(h["q"], h["cfg0"]), steps=steps,
+           eps32=core.rj(eps32))
+  if h["pts"] is not None:
+    l["pts"] = dict(shape=list(h["pts"].shape), vals=A.enc(A.fr(h["pts"])))
+  return l
+
+
+def hlabel(h, i):
+  st = h["steps"][i]
+  return dict(quantizer=h["q"], pattern=h["pattern"], step=i, construction=h["cfg0"],
+              history=[dict(shape=t["shape"], ch_last=t["ch_last"], set=t["set"],
+                            twin_of=t["twin_of"], twin_k=t["twin_k"]) for t in h["steps"][:i + 1]],
+              pts=None if h["pts"] is None else dict(shape=list(h["pts"].shape), vals=h["pts"].ravel().tolist()),
+              pre="alpha=None call, then _set_trainable_parameter()" if h["pre"] else None,
+              cfg_now=st["cfg"], x=[float(v) for v in st["x"].ravel()[:12]])
+
+
+def judge_history(run, h, recs, out):
+  """per step: clause oracle on the object's real output, model tie, fresh twin, attributes; then the 2^k twins
+  and the repeated tensors inside the history"""
+  qk = h["q"]
+  msteps = out.get("steps", [])
+  done = {}
+  for i, (st, rec) in enumerate(zip(h["steps"], recs)):
+    cfg = st["cfg"]
+    alpha = "auto_po2" if cfg["po2"] else "auto"
+    key0 = dict(quantizer="quantized_bits" if qk == "qbits" else "quantized_linear", alpha=alpha)
+    lab = hlabel(h, i)
+    run.count("history:%s:%s" % (h["pattern"], qk))
+    mo = msteps[i] if i < len(msteps) else {"err": "missing"}
+    # ---- the public attributes after the call: assigned values, nothing else (model: C05_history_fresh)
+    want = cfg_attrs(qk, cfg)
+    if rec["attrs"] != want or mo.get("attrs") != want:
+      run.disagree("history-attributes:" + qk, lab, rec["attrs"], mo.get("attrs"))
+      run.count("history:attribute-drift")
+    if rec["err"] is not None:
+      run.case(key=("history-raises", len(run.nontrivial)), nontrivial=True)
+      if "err" in mo and rec["twin_err"] is not None:
+        run.count("history:rejected-by-model-and-code")      # e.g. 'auto' with exponent bounds after a re-assignment
+        continue
+      run.violate("returns_output", dict(key0, error=rec["err"].split(":")[0], history=True),
+                  dict(lab, error=rec["err"], fresh_twin="raises too: %s" % rec["twin_err"] if rec["twin_err"] else "returns"),
+                  mirrored=False)
+      continue
+    y, sc_raw, qs_raw = rec["obj"]
+    shape = st["shape"]
+    # ---- shape of the exposed scale: one value per output channel (keepdims over the other axes)
+    want_shape = spec_scale_shape(qk, cfg, shape, st["ch_last"], h["pts"])
+    got_shapes = [list(sc_raw.shape)] + ([list(qs_raw.shape)] if qs_raw is not None else [])
+    ok_shape = all(g == want_shape for g in got_shapes)
+    try:
+      sc = A.broadcast_scale(sc_raw, tuple(shape))
+      qs = None if qs_raw is None else A.broadcast_scale(qs_raw, tuple(shape))
+    except ValueError:
+      sc = None
+    if not ok_shape or sc is None or list(y.shape) != list(shape):
+      run.case(key=("history-scale-shape", len(run.nontrivial)), nontrivial=True)
+      run.violate("scale_shape", dict(key0, history=True),
+                  dict(lab, scale_shape=got_shapes, expected=want_shape, output_shape=list(y.shape)), mirrored=False)
+      if sc is None or list(y.shape) != list(shape):
+        continue
+    if not (np.isfinite(y).all() and np.isfinite(sc).all() and (qs is None or np.isfinite(qs).all())):
+      run.case(key=("history-nonfinite", len(run.nontrivial)), nontrivial=True)
+      run.violate("finite", key0, dict(lab, y=[float(v) for v in y.ravel()[:8]]), mirrored=False)
+      continue
+    c = dict(cfg, q=qk, stream="history", shape=shape, x=st["x"], ch_last=st["ch_last"], pts=h["pts"],
+             pattern=h["pattern"], step=i, history=lab["history"], construction=h["cfg0"], pre=lab["pre"])
+    im = (A.fr(st["x"]), A.fr(y), [F(float(v)) for v in sc], None if qs is None else [F(float(v)) for v in qs])
+    r = tie_and_judge(run, c, im, mo)
+    if r is not None:
+      done[i] = r
+    # ---- the fresh twin on this tensor alone: same output, same exposed scale (values and shape), same attributes
+    run.compared += 1
+    if rec["twin_err"] is not None:
+      run.violate("returns_output", dict(key0, error=rec["twin_err"].split(":")[0]), dict(lab, error=rec["twin_err"]),
+                  mirrored=False)
+      continue
+    ty, tsc, tqs = rec["twin"]
+    same = (y.shape == ty.shape and np.array_equal(y, ty) and sc_raw.shape == tsc.shape and np.array_equal(sc_raw, tsc)
+            and (qs_raw is None or (qs_raw.shape == tqs.shape and np.array_equal(qs_raw, tqs))))
+    if not same:
+      j = int(np.argmax(y.ravel() != ty.ravel())) if y.shape == ty.shape else 0
+      run.violate("function_of_data", dict(key0, history=True),
+                  dict(lab, why="the property makes output and scale a function of the configuration and the tensor "
+                                "(2^0 * x must give 2^0 * q(x)): this object, after the earlier calls of the history, "
+                                "differs from a fresh quantizer of the same configuration on the same tensor",
+                       i=j, y=float(y.ravel()[j]), y_fresh=float(ty.ravel()[j]) if y.shape == ty.shape else None,
+                       scale_shape=list(sc_raw.shape), scale_shape_fresh=list(tsc.shape),
+                       scale=[float(v) for v in sc_raw.ravel()[:6]], scale_fresh=[float(v) for v in tsc.ravel()[:6]]),
+                  mirrored=False)
+    else:
+      run.count("history:step-equals-fresh-twin")
+    ds = sorted(k for k in set(rec["snap"]) | set(rec["twin_snap"]) if rec["snap"].get(k, "<missing>") != rec["twin_snap"].get(k, "<missing>"))
+    if same and ds:
+      run.disagree("history-object-state:" + qk, lab, {k: rec["snap"].get(k, "<missing>") for k in ds},
+                   {k: rec["twin_snap"].get(k, "<missing>") for k in ds})
+  # ---- inside the history, on the SAME object: x -> 2^k x, and the identical tensor again
+  for i, st in enumerate(h["steps"]):
+    j = st["twin_of"] if st["twin_of"] is not None else st["same_as"]
+    if j is None or i not in done or j not in done:
+      continue
+    if h["steps"][j]["cfg"] != st["cfg"] or h["steps"][j]["ch_last"] != st["ch_last"]:
+      continue
+    kk = st["twin_k"] if st["twin_of"] is not None else 0
+    (y0, s0, b0, q0), (y1, s1, b1, q1) = done[j], done[i]
+    k = F(2) ** kk
+    cfg = st["cfg"]
+    ub = cfg["bits"] - (1 if cfg["kn"] else 0)
+    inner = (lambda s: s / F(2) ** ub) if qk == "qbits" else (lambda s: s)
+    scs0, scs1 = (s0, s1) if qk == "qbits" else (q0, q1)
+    floor_ok = kk == 0 or all(s == 0 or inner(s) >= TWIN_FLOOR for s in scs0 + scs1)
+    run.case(key=("history-twin", len(run.nontrivial)), nontrivial=True)
+    bounded = kk != 0 and (cfg.get("mn") is not None or cfg.get("mx") is not None)   # clipped exponents do not scale
+    if (kk != 0 and (b0 or b1)) or not floor_ok or h["pts"] is not None or bounded:
+      run.count("history-twin:skipped(band-or-eps-floor)")
+      continue
+    run.count("history-twin:checked(k=%s)" % ("0" if kk == 0 else "nonzero"))
+    if [v * k for v in y0] != y1 or [v * k for v in s0] != s1:
+      t = next((t for t in range(len(y0)) if y0[t] * k != y1[t] or s0[t] * k != s1[t]), 0)
+      run.violate("scale_equivariance", dict(quantizer="quantized_bits" if qk == "qbits" else "quantized_linear",
+                                             alpha="auto_po2" if cfg["po2"] else "auto", same_object=True),
+                  dict(hlabel(h, i), k=kk, of_step=j, i=t, y=float(y0[t]), y_twin=float(y1[t]),
+                       scale=float(s0[t]), scale_twin=float(s1[t])), mirrored=False)
+
+
+# ------------------------------------------------------------------ argument forms
+
+def gen_argforms(rng, tier):
+  n = 6 if tier == "quick" else 30
+  out = []
+  for _ in range(n):
+    sh = hist_shape(rng, int(rng.integers(1, 5)), {})
+    out.append(dict(q="qbits" if rng.random() < 0.5 else "qlinear", po2=bool(rng.random() < 0.5),
+                    bits=int(rng.integers(2, 9)), integer=int(rng.integers(0, 3)), shape=sh,
+                    sa=(int(rng.integers(0, len(sh))) if len(sh) >= 2 and rng.random() < 0.5 else None),
+                    x=varied_tensor(rng, sh)))
+  return out
+
+
+def run_argforms(run, Q, tf, forms):
+  """same value in another argument form => same output, same exposed scale"""
+  num_forms = [("np.int64", np.int64), ("np.int32", np.int32), ("float", float), ("np.float32", np.float32),
+               ("0-d ndarray", np.array), ("np.float64", np.float64)]
+  x_forms = [("ndarray", lambda x: x.copy()), ("float64 ndarray", lambda x: x.astype(np.float64)),
+             ("tf.Variable", lambda x: __import__("tensorflow").Variable(x)), ("nested list", lambda x: x.tolist())]
+  for c in forms:
+    alpha = "auto_po2" if c["po2"] else "auto"
+    cls = Q.quantized_bits if c["q"] == "qbits" else Q.quantized_linear
+    key0 = dict(quantizer="quantized_bits" if c["q"] == "qbits" else "quantized_linear", alpha=alpha)
+    ref = call_q(c["q"], cls(c["bits"], c["integer"], alpha=alpha, scale_axis=c["sa"]), tf.constant(c["x"]), c["shape"])
+    variants = [("bits,integer as " + n, (lambda f=f: cls(f(c["bits"]), f(c["integer"]), alpha=alpha, scale_axis=c["sa"])),
+                 tf.constant(c["x"])) for n, f in num_forms]
+    variants += [("x as " + n, (lambda: cls(c["bits"], c["integer"], alpha=alpha, scale_axis=c["sa"])), f(c["x"]))
+                 for n, f in x_forms]
+    if c["sa"] is not None:
+      variants.append(("scale_axis as np.int64", (lambda: cls(c["bits"], c["integer"], alpha=alpha,
+                                                              scale_axis=np.int64(c["sa"]))), tf.constant(c["x"])))
+      variants.append(("scale_axis as one-element list", (lambda: cls(c["bits"], c["integer"], alpha=alpha,
+                                                                      scale_axis=[c["sa"]])), tf.constant(c["x"])))
+    for name, mk, xin in variants:
+      run.case(key=("argform", name, len(run.nontrivial)), nontrivial=True)
+      run.count("argform:" + name)
+      run.compared += 1
+      det = dict(form=name, quantizer=c["q"], alpha=alpha, bits=c["bits"], integer=c["integer"], scale_axis=c["sa"],
+                 shape=c["shape"], x=[float(v) for v in c["x"].ravel()[:12]])
+      try:
+        got = call_q(c["q"], mk(), xin, c["shape"])
+      except Exception as e:  # pylint: disable=broad-except
+        run.violate("returns_output", dict(key0, error=type(e).__name__, form=name), dict(det, error=str(e)[:200]),
+                    mirrored=False)
+        continue
+      if not all(a is None and b is None or (a.shape == b.shape and np.array_equal(a, b)) for a, b in zip(ref, got)):
+        run.violate("function_of_data", dict(key0, form=name),
+                    dict(det, why="same configuration and tensor in another argument form gives another output / scale",
+                         y=[float(v) for v in got[0].ravel()[:6]], y_ref=[float(v) for v in ref[0].ravel()[:6]],
+                         scale_shape=list(got[1].shape), scale_shape_ref=list(ref[1].shape)), mirrored=False)
+
+
+def tie_and_judge(run, c, im, o):
+  """one call of the real code (x, y, broadcast scale, quantization_scale as Fractions) against the model's answer
+  `o` for the same call, then the clause oracle on the REAL output; returns (y, scale, band) or None"""
+  x, y, sc, qs = im
+  run.case(key=(c["q"], c["stream"], tuple(c["shape"]), c["bits"], c["integer"], c["po2"], str(c.get("sa")),
+                str(c.get("eps")), len(run.nontrivial)), nontrivial=True,
+           sample={"case": label(c), "x": [float(v) for v in x[:6]], "impl_y": [float(v) for v in y[:6]],
+                   "impl_scale": [float(v) for v in sc[:6]]})
+  run.count("stream:%s:%s:%s" % (c["stream"], c["q"], "auto_po2" if c["po2"] else "auto"))
+  if "err" in o:
+    run.disagree("model-rejects", label(c), "ok", o)
+    return None
+  Fm = {k: A.dec(v) for k, v in o["F"].items()}
+  band = o["band"]
+  run.compared += 1
+  mirrored = Fm["out"] == y and Fm["scale"] == sc and (qs is None or Fm["qs"] == qs)
+  if band:
+    run.count("tie:band")
+  elif not mirrored:
+    j = next((i for i in range(len(y)) if Fm["out"][i] != y[i] or Fm["scale"][i] != sc[i]), 0)
+    run.disagree("bit-exact:" + c["q"], label(c), {"i": j, "x": float(x[j]), "y": float(y[j]), "scale": float(sc[j])},
+                 {"i": j, "y": float(Fm["out"][j]), "scale": float(Fm["scale"][j])})
+  else:
+    run.count("tie:bit-exact")
+  if c["stream"] != "history" and "scale_shapes" in c:
+    # the exposed scale is ONE value per output channel: keepdims shape over everything but the scale axes
+    want = spec_scale_shape(c["q"], c, c["shape"], c["ch_last"], c.get("pts"))
+    if any(g != want for g in c["scale_shapes"]):
+      run.violate("scale_shape", dict(quantizer="quantized_bits" if c["q"] == "qbits" else "quantized_linear",
+                                      alpha="auto_po2" if c["po2"] else "auto"),
+                  {"case": label(c), "expected": want}, mirrored=False)
+  if c["q"] == "qbits":
+    judge_qbits(run, c, x, y, sc, mirrored)
+  else:
+    judge_qlinear(run, c, x, y, sc, qs, mirrored)
+  return (y, sc, band, qs)
+
+
 def run(run, tier):
   import tensorflow as tf
   import tf_keras.backend as K
@@ -334,7 +857,13 @@ def run(run, tier):
                        "elements_per_scale, exponent bounds, post_training_scale, both data formats) and "
                        "quantized_linear(bits 1-8, symmetric, keep_negative, auto/auto_po2, scale_axis) x rank 1-4 "
                        "tensors: exact-regime dyadics incl. all-zero / zero channel / one big element / tiny / huge, "
-                       "random float32 at 1e-6..1e6, power-of-two twins, absorption points. Every case has a "
+                       "random float32 at 1e-6..1e6, power-of-two twins, absorption points. HISTORIES on one object "
+                       "(8 patterns x both classes x auto/auto_po2: rank up / rank down / same shape with x, 2^k x, other "
+                       "data, x again / data format switched between calls / public attributes re-assigned / all-zero "
+                       "then data / frozen post-training scale over ranks / alpha=None stand-alone call then "
+                       "_set_trainable_parameter): every step judged by the clause oracle, tied to the Lean object model "
+                       "and compared with a fresh twin (output, scale values and shape, attributes). Argument forms "
+                       "(numpy / float / 0-d array options, ndarray / float64 / Variable / list inputs). Every case has a "
                        "data-dependent (or frozen) scale, so every case is non-trivial.")
   lines, impl = [], []
   for c in cases:
@@ -360,45 +889,30 @@ def run(run, tier):
       impl.append(None)
       continue
     impl.append((A.fr(c["x"]), A.fr(y), [F(float(v)) for v in sc], None if qs is None else [F(float(v)) for v in qs]))
-  outs = core.run_driver("C05", lines)
+  hists = gen_histories(rng, tier)
+  forms = gen_argforms(rng, tier)
+  hist_impl = [run_history(run, Q, K, tf, h) for h in hists]
+  hist_lines = [hist_line(h, eps32) for h in hists]
+  outs_all = core.run_driver("C05", lines + hist_lines)
+  outs, hist_outs = outs_all[:len(lines)], outs_all[len(lines):]
   res = {}
   for c, im, o in zip(cases, impl, outs):
     if im is None:
       continue
-    x, y, sc, qs = im
-    run.case(key=(c["q"], c["stream"], tuple(c["shape"]), c["bits"], c["integer"], c["po2"], str(c.get("sa")),
-                  str(c.get("eps")), len(run.nontrivial)), nontrivial=True,
-             sample={"case": label(c), "x": [float(v) for v in x[:6]], "impl_y": [float(v) for v in y[:6]],
-                     "impl_scale": [float(v) for v in sc[:6]]})
-    run.count("stream:%s:%s:%s" % (c["stream"], c["q"], "auto_po2" if c["po2"] else "auto"))
-    if "err" in o:
-      run.disagree("model-rejects", label(c), "ok", o)
-      continue
-    Fm = {k: A.dec(v) for k, v in o["F"].items()}
-    band = o["band"]
-    run.compared += 1
-    mirrored = Fm["out"] == y and Fm["scale"] == sc and (qs is None or Fm["qs"] == qs)
-    if band:
-      run.count("tie:band")
-    elif not mirrored:
-      j = next((i for i in range(len(y)) if Fm["out"][i] != y[i] or Fm["scale"][i] != sc[i]), 0)
-      run.disagree("bit-exact:" + c["q"], label(c), {"i": j, "x": float(x[j]), "y": float(y[j]), "scale": float(sc[j])},
-                   {"i": j, "y": float(Fm["out"][j]), "scale": float(Fm["scale"][j])})
-    else:
-      run.count("tie:bit-exact")
-    res[id(c)] = (y, sc, band)
-    if c["q"] == "qbits":
-      judge_qbits(run, c, x, y, sc, mirrored)
-    else:
-      judge_qlinear(run, c, x, y, sc, qs, mirrored)
+    r = tie_and_judge(run, c, im, o)
+    if r is not None:
+      res[id(c)] = r
+  for h, recs, o in zip(hists, hist_impl, hist_outs):
+    judge_history(run, h, recs, o)
+  run_argforms(run, Q, tf, forms)
   # ---- scale equivariance on the twins (x -> 2^k x), away from the epsilon floor and the band
   for c, d in twins:
     if id(c) not in res or id(d) not in res:
       continue
-    (y0, s0, b0), (y1, s1, b1) = res[id(c)], res[id(d)]
+    (y0, s0, b0, _), (y1, s1, b1, _) = res[id(c)], res[id(d)]
     k = F(2) ** d["twin_k"]
     ub = c["bits"] - (1 if c["kn"] else 0)
-    floor_ok = all(s == 0 or s / F(2) ** ub >= F(1, 2 ** 10) for s in s0 + s1)
+    floor_ok = all(s == 0 or s / F(2) ** ub >= TWIN_FLOOR for s in s0 + s1)
     run.case(key=("twin", len(run.nontrivial)), nontrivial=True)
     if b0 or b1 or not floor_ok:
       run.count("twin:skipped(band-or-eps-floor)")
@@ -410,6 +924,10 @@ def run(run, tier):
                   {"case": label(c), "k": d["twin_k"], "i": j, "y": float(y0[j]), "y_twin": float(y1[j]),
                    "scale": float(s0[j]), "scale_twin": float(s1[j])}, mirrored=True)
   run.extra["cases"] = len(cases)
+  run.extra["histories"] = {"objects": len(hists), "calls": sum(len(h["steps"]) for h in hists)}
+  run.assumptions.append("2^k twins (fresh pairs and same-object pairs of a history) are judged only when every internal "
+                         "scale is >= 2^-5 ('well above the epsilon floor': eps/s below the band of the logarithm "
+                         "oracle), no band was touched and no exponent bound is configured")
   run.assumptions.append("po2 scales are compared exactly outside a relative 2^-17 band around sqrt(2)*2^k of the "
                          "rounded logarithm (DESIGN 3.2 device 3); inside it only the clause oracle judges")
   run.assumptions.append("float32 +,-,*,/ of TF's CPU kernels are correctly rounded (device 1: the model rounds every "
